@@ -32,6 +32,10 @@ impl Rng {
     pub fn bytes(&mut self, n: usize) -> Vec<u8> {
         (0..n).map(|_| self.next() as u8).collect()
     }
+    pub fn bytes_range(&mut self, lo: u64, hi: u64) -> Vec<u8> {
+        let n = self.range(lo, hi) as usize;
+        self.bytes(n)
+    }
     /// a value whose magnitude is spread over all bit widths up to `bits`
     pub fn spread(&mut self, bits: u32) -> u64 {
         let w = self.range(0, u64::from(bits));
